@@ -626,13 +626,32 @@ func runC07(c *Ctx) {
 			return true
 		})
 		c.Check(dc != nil && nApp == 2, "C07-R6", "readRules:file/disable and file/snooze matches collected", rr.Decl.Pos(), "two collectors", "file-level disable/snooze matches are not both collected into one list")
+		// the list may be handed on from one local to another (`list := collected`) before it is stored
+		alias := map[types.Object]bool{}
+		if dc != nil {
+			alias[dc] = true
+			for round := 0; round < 5; round++ {
+				ast.Inspect(rr.Decl.Body, func(n ast.Node) bool {
+					if as, ok := n.(*ast.AssignStmt); ok && len(as.Lhs) == len(as.Rhs) {
+						for i, r := range as.Rhs {
+							if o := objOf(info, r); o != nil && alias[o] {
+								if t := objOf(info, as.Lhs[i]); t != nil {
+									alias[t] = true
+								}
+							}
+						}
+					}
+					return true
+				})
+			}
+		}
 		nRuleEntries, good := 0, 0
 		for _, cl := range compositeLits(info, rr.Decl.Body, "internal/discovery.Entry") {
 			if litField(cl, "Rule") == nil {
 				continue
 			}
 			nRuleEntries++
-			if v := litField(cl, "DisabledChecks"); v != nil && dc != nil && objOf(info, v) == dc {
+			if v := litField(cl, "DisabledChecks"); v != nil && dc != nil && alias[objOf(info, v)] {
 				good++
 			}
 		}
